@@ -121,7 +121,7 @@ var pureModels = map[string]bool{
 	"strconv.ParseFloat": true, "(time.Duration).Seconds": true, "math.Round": true, "math.Ceil": true, "math.Floor": true,
 	"(time.Time).Add": true, "(time.Time).Sub": true, "bytes.Equal": true, "fmt.Errorf": true, "errors.New": true,
 	"fmt.Sprintf": true, "time.Now": true, "time.Since": true, "strings.Join": true, "strings.Split": true, "strings.SplitN": true,
-	"(*github.com/bluenviron/mediacommon/v2/pkg/formats/fmp4/seekablebuffer.Buffer).Bytes": true,
+	"(*github.com/bluenviron/mediacommon/v2/pkg/formats/fmp4/seekablebuffer.Buffer).Bytes": true, "(*bytes.Buffer).Bytes": true,
 	"(time.Duration).Milliseconds": true, "errors.Is": true, "os.Create": true, "os.Open": true, "bufio.NewWriter": true, "bytes.NewReader": true, "io.NewOffsetWriter": true, "io.NopCloser": true, "(time.Time).Format": true, "time.Parse": true,
 }
 
@@ -266,7 +266,7 @@ func (vc *VC) modelCall(fr *Frame, st *State, callee *ssa.Function, args []strin
 		return []string{r}, true
 	case "fmt.Errorf", "errors.New":
 		return []string{vc.errIface(st, "err")}, true
-	case "(*github.com/bluenviron/mediacommon/v2/pkg/formats/fmp4/seekablebuffer.Buffer).Bytes":
+	case "(*github.com/bluenviron/mediacommon/v2/pkg/formats/fmp4/seekablebuffer.Buffer).Bytes", "(*bytes.Buffer).Bytes":
 		// T3: Bytes() is a pure function of the buffer and of the number of buffer mutations so far
 		vc.svDeclare("G_bufepoch", "Int")
 		vc.declareOnceRaw("buf_bytes", "(declare-fun buf_bytes (Int Int) Slice)")
